@@ -224,6 +224,7 @@ func init() {
 				case 7:
 					p.Mode = "teardownfail"
 					p.N = 5
+					p.Conc = k / 8 % 7 // selects the way the scenario-level cleanup fails
 				case 5:
 					p.Mode = "drops"
 					p.Ignore = r.IntN(2) == 0
@@ -423,7 +424,9 @@ func c08CLI(c *core.Case, o *core.Outcome) {
 	scenario := func(t *f1testing.T) f1testing.RunFn {
 		setupRuns.Add(1)
 		if p.Mode == "teardownfail" {
-			t.Cleanup(func() { t.FailNow() })
+			kinds := []int{engine.BFailNow, engine.BFail, engine.BPanicString, engine.BPanicError, engine.BNilMap, engine.BRequire, engine.BPanicInt}
+			kind := kinds[p.Conc%len(kinds)]
+			t.Cleanup(func() { engine.Behave(t, kind) })
 		}
 		if p.Mode == "setupfail" {
 			t.FailNow()
@@ -465,7 +468,7 @@ func c08CLI(c *core.Case, o *core.Outcome) {
 		defer os.Remove(path)
 		args = append(args, "file", path)
 	default:
-		args = append(args, "users", "-c", fmt.Sprint(p.Conc), "-i", fmt.Sprint(p.N), "-d", "30s",
+		args = append(args, "users", "-c", fmt.Sprint(max(p.Conc, 1)), "-i", fmt.Sprint(p.N), "-d", "30s",
 			"--max-failures", fmt.Sprint(p.MaxF), "--max-failures-rate", fmt.Sprint(p.MaxR), "sc")
 		if p.Ignore {
 			args = append(args, "--ignore-dropped")
